@@ -52,7 +52,7 @@ def run_parallel(ctx, prop_lc, lines, workers, want_spec=True):
 
 
 def flow(ctx, prop_lc, module, theorems, matchers, *, normalise, nontrivial, describe, rule, histogram,
-         candidates, replay_cases=None, trusted=None, workers=4, extra_coverage=None):
+         candidates, replay_cases=None, trusted=None, workers=4, extra_coverage=None, post_cases=None):
     """normalise(impl_line) -> the part of an implementation line the spec speaks about;
     a spec line equal to "outside-vocabulary" means: compared with the model only.
     candidates(case) -> smaller variants of a case, for shrinking."""
@@ -115,6 +115,8 @@ def flow(ctx, prop_lc, module, theorems, matchers, *, normalise, nontrivial, des
     })
     if extra_coverage:
         ctx.coverage.update(extra_coverage)
+    if post_cases is not None:
+        post_cases(ctx)  # end of the generated-cases phase: further streams of cases (checks/universe.py)
     ncorr = len(corr_bad) + len([b for b in spec_bad if b[1] != b[2]])
     ctx.obligation("correspondence: implementation output = model output on every generated history", ncorr == 0,
                    f"{ncorr} disagreement(s)")
